@@ -68,6 +68,13 @@ func newHelper(f *ssa.Function) bool {
 	return !refFuncs[FuncKey(root)] && !refFuncs[FuncKey(f)]
 }
 
+// inlineAlways: helpers of the tree as read that only give names to sub-expressions of their one
+// caller. Rules about that caller are stated over the inlined term, so they hold whether the helper
+// exists or its body was written out in place.
+var inlineAlways = map[string]bool{
+	"crypto/rfc4757.deriveKeys": true, // k1 = key; k2 = HMAC(k1, T); k3 = HMAC(k2, checksum)
+}
+
 // inlineResults renders the results of a call of a new helper as the helper's own return
 // expressions with the arguments substituted for its parameters (φ over several returns).
 func (r *Renderer) inlineResults(c *ssa.CallCommon, depth int) ([]string, bool) {
@@ -75,7 +82,7 @@ func (r *Renderer) inlineResults(c *ssa.CallCommon, depth int) ([]string, bool) 
 	if r.noInline {
 		return nil, false
 	}
-	if !ok || c.IsInvoke() || !(newHelper(f) || (r.inlineGetters && pureGetter(f))) || r.inlineDepth >= 3 || f == r.fn {
+	if !ok || c.IsInvoke() || !(newHelper(f) || inlineAlways[FuncKey(f)] || (r.inlineGetters && pureGetter(f))) || r.inlineDepth >= 3 || f == r.fn {
 		return nil, false
 	}
 	// a helper that writes memory it also reads for its result (c.x = …; return c.x) is not the
@@ -123,6 +130,11 @@ func (r *Renderer) inlineResults(c *ssa.CallCommon, depth int) ([]string, bool) 
 						errRet = true
 					}
 				}
+			}
+			// `return f(x)`: every result is the same-numbered result of one call — the error is
+			// nil exactly when the callee's was, and the values are the callee's values
+			if errRet && forwardsTuple(rs) {
+				errRet = false
 			}
 		}
 		if !errRet {
@@ -1419,4 +1431,17 @@ func funcConstLen(f *ssa.Function, depth int) (int64, bool) {
 		n = l
 	}
 	return n, n >= 0
+}
+
+// forwardsTuple: rs are the results 0..n-1, in order, of one call.
+func forwardsTuple(rs []ssa.Value) bool {
+	var tup ssa.Value
+	for i, v := range rs {
+		ex, ok := v.(*ssa.Extract)
+		if !ok || ex.Index != i || (tup != nil && ex.Tuple != tup) {
+			return false
+		}
+		tup = ex.Tuple
+	}
+	return tup != nil
 }
